@@ -264,6 +264,7 @@ type BytecodeCompiler struct {
 	scopes                bytecodeScopes
 	loopJumpSets          []*bytecodeLoopJumpSet
 	offsetValueIds        []int // ids of integers in the value pool that represent bytecode offsets
+	ownCallsToOptimise    []*bytecodeCall // late-bound calls emitted into this function (subset of globalData.callsToOptimise)
 	secondToLastOpCode    bytecode.OpCode
 	lastOpCode            bytecode.OpCode
 	parent                *BytecodeCompiler
@@ -679,13 +680,13 @@ func (c *BytecodeCompiler) optimiseCalls() {
 
 			if method != nil {
 				c.patchOptimisedCall(call, method)
-				return
+				continue
 			}
 		}
 
 		method := c.checker.GetMethod(call.receiverType, name, nil)
 		if method == nil {
-			return
+			continue
 		}
 
 		c.patchOptimisedCall(call, method.Body)
@@ -1101,6 +1102,12 @@ func (c *BytecodeCompiler) compileNamespace(node ast.Node) bool {
 	return true
 }
 
+// Registers a call that will be bound to its method once all method bodies exist.
+func (c *BytecodeCompiler) pushCallToOptimise(call *bytecodeCall) {
+	c.ownCallsToOptimise = append(c.ownCallsToOptimise, call)
+	c.globalData.callsToOptimise.Push(call)
+}
+
 func (c *BytecodeCompiler) prepLocals() {
 	localCount := c.maxLocalIndex + 1 - c.predefinedLocals
 	if localCount == 0 {
@@ -1137,6 +1144,13 @@ func (c *BytecodeCompiler) prepLocals() {
 	for _, id := range c.offsetValueIds {
 		currentValue := c.bytecode.Values[id].MustSmallInt()
 		c.bytecode.Values[id] = (currentValue + value.SmallInt(len(newInstructions))).ToValue()
+	}
+
+	// the recorded offsets of late-bound calls point into the instructions that have just been shifted
+	for _, call := range c.ownCallsToOptimise {
+		if call.bytecode == c.bytecode {
+			call.bytecodeOffset += len(newInstructions)
+		}
 	}
 }
 
@@ -9222,7 +9236,7 @@ func (c *BytecodeCompiler) compileOptimisedCallMethod(receiverType types.Type, n
 			tailCall,
 		)
 
-		c.globalData.callsToOptimise.Push(
+		c.pushCallToOptimise(
 			newBytecodeCall(
 				name,
 				c.bytecode,
@@ -9256,7 +9270,7 @@ func (c *BytecodeCompiler) compileOptimisedCallMethod(receiverType types.Type, n
 			tailCall,
 		)
 
-		c.globalData.callsToOptimise.Push(
+		c.pushCallToOptimise(
 			newBytecodeCall(
 				name,
 				c.bytecode,
